@@ -171,6 +171,8 @@ pub struct FixPoint {
     spill_errors_seen: u64,
     frames_checked: u64,
     on_cycle_skipped: u64,
+    circ_probed: u64,
+    perturbed: u64,
     pre_user: BTreeMap<Pos, String>,
     thorough: bool,
 }
@@ -188,6 +190,8 @@ impl FixPoint {
             spill_errors_seen: 0,
             frames_checked: 0,
             on_cycle_skipped: 0,
+            circ_probed: 0,
+            perturbed: 0,
             pre_user: BTreeMap::new(),
             thorough: std::env::var("VERIF_TIER").map(|t| t == "thorough").unwrap_or(false),
         }
@@ -213,6 +217,11 @@ impl FixPoint {
             }
             if cyc.contains(&i) {
                 self.on_cycle_skipped += 1;
+                if self.which == Which::All && !u.is_array {
+                    if let Some(line) = self.unjustified_circ(model, lang, (u.sheet, u.row, u.col)) {
+                        d.push(line);
+                    }
+                }
                 continue;
             }
             if self.which == Which::Spills && !u.is_dynamic {
@@ -226,13 +235,31 @@ impl FixPoint {
             if live.values().any(|v| v.contains("e:SPILL")) {
                 self.spill_errors_seen += 1;
             }
-            let wb = match scratch_workbook(model, x) {
+            let mut wb = match scratch_workbook(model, x) {
                 Some(wb) => wb,
                 None => {
                     self.skipped_unevaluated += 1;
                     continue;
                 }
             };
+            // Metamorphic twist, in every other cold evaluation: a number is added far away
+            // on every sheet, in a cell X does not read. It changes the used extent of the
+            // sheets (which evaluation shortcuts may look at) and nothing X's value may
+            // depend on.
+            if !u.opaque && (i + idx) % 2 == 0 {
+                let far = (3000 + (i as i32 % 7), 60 + (i as i32 % 5));
+                let unread = |s: u32| !u.reads.iter().any(|r| r.contains(s, far.0, far.1));
+                let mut all_unread = true;
+                for si in 0..wb.worksheets.len() {
+                    all_unread &= unread(si as u32);
+                }
+                if all_unread {
+                    for ws in wb.worksheets.iter_mut() {
+                        ws.sheet_data.entry(far.0).or_default().insert(far.1, Cell::NumberCell { v: 7.0, s: 0 });
+                    }
+                    self.perturbed += 1;
+                }
+            }
             let mut scratch = match Model::from_workbook(wb, lang) {
                 Ok(m) => m,
                 Err(_) => {
@@ -265,6 +292,59 @@ impl FixPoint {
         let name = if self.which == Which::All { "fix-point" } else { "spill-exact" };
         let _ = kind;
         Some(Violation::from_diff(name, idx, idx, "probe", d, "a formula does not show what it computes when evaluated over the values the cells around it show (expected = cold evaluation in a scratch model, actual = live node)".into()))
+    }
+
+    /// "A formula shows #CIRC! only if it is on such a cycle or reads a cell that shows it":
+    /// X is on a static cycle and shows #CIRC!. In the dependency graph in which an IF whose
+    /// condition can be told without evaluating a formula (a literal, a reference to a
+    /// constant) reads only that condition and the branch it takes, X is on no cycle, reads
+    /// nothing opaque, and none of the formulas it reads shows #CIRC!: then its evaluation
+    /// does not depend on its own value and the #CIRC! is not justified.
+    fn unjustified_circ(&mut self, model: &Model, _lang: &'static str, x: Pos) -> Option<DiffLine> {
+        let live = block_of(model, x);
+        let shown = live.get(&(x.1, x.2))?.clone();
+        if !shown.contains("e:CIRC") {
+            return None;
+        }
+        self.circ_probed += 1;
+        let lazy = deps::units_lazy(model);
+        let i = deps::unit_at(&lazy, x.0, x.1, x.2)?;
+        if lazy[i].opaque || deps::on_cycle(&lazy).contains(&i) {
+            return None;
+        }
+        // a precedent (through the lazy graph) that shows #CIRC! justifies it
+        let e = deps::edges(&lazy);
+        for j in &e[i] {
+            let u = &lazy[*j];
+            if u.opaque {
+                return None;
+            }
+            let b = block_of(model, (u.sheet, u.row, u.col));
+            if b.values().any(|v| v.contains("e:CIRC")) {
+                return None;
+            }
+        }
+        // ... or a constant cell holding the error
+        for r in &lazy[i].reads {
+            if let Some(ws) = model.workbook.worksheets.get(r.sheet as usize) {
+                for (row, cols) in &ws.sheet_data {
+                    if *row < r.r0 || *row > r.r1 {
+                        continue;
+                    }
+                    for (c, cell) in cols {
+                        if *c >= r.c0 && *c <= r.c1 && typed_value(cell, &model.workbook.shared_strings).contains("CIRC") && (r.sheet, *row, *c) != x {
+                            return None;
+                        }
+                    }
+                }
+            }
+        }
+        Some(DiffLine {
+            facet: "cell.value".into(),
+            at: format!("{}!R{}C{}", x.0, x.1, x.2),
+            expected: "not #CIRC! (with IF read lazily the formula is on no dependency cycle and nothing it reads shows #CIRC!)".into(),
+            actual: shown,
+        })
     }
 
     /// C31: no spilled value outside the current result of its formula (no orphan child)
@@ -394,6 +474,8 @@ impl Oracle for FixPoint {
             ("anchors_showing_spill_error_at_probe".into(), self.spill_errors_seen),
             ("user_cells_checked_by_the_frame_condition".into(), self.frames_checked),
             ("formulas_on_a_static_cycle_not_re_evaluated".into(), self.on_cycle_skipped),
+            ("circ_on_a_static_cycle_probed_for_real_dependence".into(), self.circ_probed),
+            ("cold_evaluations_with_an_unread_cell_added_far_away".into(), self.perturbed),
             ("skipped_neighbour_unevaluated".into(), self.skipped_unevaluated),
             ("scratch_model_could_not_be_built".into(), self.scratch_failures),
         ]
